@@ -261,7 +261,7 @@ impl World {
         if rng.chance(1, 3) {
             proofs.push(b.proof());
         }
-        let choice = rng.below(22);
+        let choice = rng.below(26);
         let (label, manifest): (&'static str, TransactionManifestV1) = match choice {
             0 | 1 => {
                 let f = rng.pick(&self.fungibles).clone();
@@ -404,6 +404,46 @@ impl World {
                 let f = rng.pick(&self.fungibles).clone();
                 let g = rng.pick(&self.fungibles).clone();
                 ("multi_resource_batch", mb.mint_fungible(f.address, amount(rng, f.divisibility, None)).mint_fungible(g.address, amount(rng, g.divisibility, None)).withdraw_from_account(a.account, XRD, dec!(1)).try_deposit_entire_worktop_or_abort(b.account, None).build())
+            }
+            22 | 23 | 24 => {
+                // overlapping proofs of different amounts on one vault (dropped by the auth zone in
+                // creation order at the end), with movements on the same vault while they are alive
+                let f = rng.pick(&self.fungibles).clone();
+                let bal = self.balance(a.account, f.address);
+                let unit = Decimal::from_attos(I192::from(10u128.pow(18 - f.divisibility as u32)));
+                let p1 = amount(rng, f.divisibility, Some(bal));
+                let p2 = match rng.below(3) {
+                    0 => p1,
+                    1 => p1.checked_add(unit.checked_mul(Decimal::from(rng.below(5) + 1)).unwrap_or(unit)).unwrap_or(p1),
+                    _ => amount(rng, f.divisibility, Some(bal)),
+                };
+                let mut m = mb.create_proof_from_account_of_amount(a.account, f.address, p1).create_proof_from_account_of_amount(a.account, f.address, p2);
+                if rng.bool() {
+                    m = m.create_proof_from_account_of_amount(a.account, f.address, amount(rng, f.divisibility, Some(bal)));
+                }
+                m = match rng.below(4) {
+                    0 => m.withdraw_from_account(a.account, f.address, amount(rng, f.divisibility, Some(bal))).try_deposit_entire_worktop_or_abort(b.account, None),
+                    1 => m.pop_from_auth_zone("p").drop_proof("p"),
+                    2 => m.mint_fungible(f.address, dec!(3)).try_deposit_entire_worktop_or_abort(a.account, None),
+                    _ => m,
+                };
+                ("overlapping_proofs", m.build())
+            }
+            25 => {
+                let nf = rng.pick(&self.nfs).clone();
+                let held = self.held_ids(a.account, nf.address);
+                let ids1: IndexSet<NonFungibleLocalId> = held.iter().take(rng.range(1, 2) as usize).cloned().collect();
+                let ids2: IndexSet<NonFungibleLocalId> = held.iter().skip(rng.below(2) as usize).take(rng.range(1, 3) as usize).cloned().collect();
+                if ids1.is_empty() || ids2.is_empty() {
+                    ("noop", mb.build())
+                } else {
+                    let m = mb
+                        .create_proof_from_account_of_non_fungibles(a.account, nf.address, ids1)
+                        .create_proof_from_account_of_non_fungibles(a.account, nf.address, ids2.clone())
+                        .withdraw_non_fungibles_from_account(a.account, nf.address, ids2.into_iter().take(1).collect::<IndexSet<_>>())
+                        .try_deposit_entire_worktop_or_abort(b.account, None);
+                    ("overlapping_nf_proofs", m.build())
+                }
             }
             20 => {
                 let div = *rng.pick(&[0u8, 1, 6, 17, 18]);
